@@ -63,6 +63,9 @@ type Contract struct {
 	Source     string
 	HasAssigns bool
 	SafetyProps []string
+	TrustedEns []*Clause
+	Allocs     []string
+	AtCalls    []*Clause // Var holds the callee name
 	Arith      bool
 }
 
@@ -80,6 +83,8 @@ type ConstDecl struct {
 }
 
 type AxiomDecl struct {
+	Lemma    bool     // proved from the axioms instead of assumed
+	Props    []string
 	Name     string
 	Vars     []string
 	Sorts    []Sort
@@ -96,6 +101,7 @@ type Spec struct {
 	GhostOrd  []string
 	Consts    map[string]*ConstDecl
 	Axioms    []*AxiomDecl
+	Lemmas    []*AxiomDecl
 	Contracts map[string]*Contract
 	Files     []string
 }
@@ -105,7 +111,7 @@ func NewSpec() *Spec {
 }
 
 var reFuncHdr = regexp.MustCompile(`^func\s+(\S+?)(\(([^)]*)\))?(\s*\(([^)]*)\))?\s*$`)
-var reClause = regexp.MustCompile(`^(requires|ensures|exit_requires|invariant)\s*([A-Za-z0-9_.\-@#$<>=+]*)?\s*(\{[^}]*\})?\s*:\s*(.*)$`)
+var reClause = regexp.MustCompile(`^(requires|ensures|trusted_ensures|exit_requires|invariant)\s*([A-Za-z0-9_.\-@#$<>=+]*)?\s*(\{[^}]*\})?\s*:\s*(.*)$`)
 
 func parseSort(s string) Sort {
 	s = strings.TrimSpace(s)
@@ -241,12 +247,17 @@ func (sp *Spec) LoadFile(path, prefix string, external bool) error {
 			}
 			sp.Consts[cd.Name] = cd
 			continue
-		case "axiom":
-			rest := strings.TrimSpace(strings.TrimPrefix(line, "axiom"))
+		case "axiom", "lemma":
+			rest := strings.TrimSpace(strings.TrimPrefix(line, fields[0]))
 			colon := strings.Index(rest, ":")
 			name := strings.TrimSpace(rest[:colon])
+			var lprops []string
+			if i := strings.Index(name, "{"); i >= 0 {
+				lprops = parseProps(name[i:])
+				name = strings.TrimSpace(name[:i])
+			}
 			parts := strings.Split(rest[colon+1:], "::")
-			ax := &AxiomDecl{Name: name, Line: where}
+			ax := &AxiomDecl{Name: name, Line: where, Lemma: fields[0] == "lemma", Props: lprops}
 			switch len(parts) {
 			case 1:
 				ax.Body = strings.TrimSpace(parts[0])
@@ -271,7 +282,11 @@ func (sp *Spec) LoadFile(path, prefix string, external bool) error {
 			default:
 				return fmt.Errorf("%s: axiom needs 'forall .. :: trigger .. :: body' or a ground body", where)
 			}
-			sp.Axioms = append(sp.Axioms, ax)
+			if ax.Lemma {
+				sp.Lemmas = append(sp.Lemmas, ax)
+			} else {
+				sp.Axioms = append(sp.Axioms, ax)
+			}
 			continue
 		case "func":
 			m := reFuncHdr.FindStringSubmatch(line)
@@ -294,7 +309,7 @@ func (sp *Spec) LoadFile(path, prefix string, external bool) error {
 		if cur == nil {
 			return fmt.Errorf("%s: clause outside a func block: %q", where, line)
 		}
-		switch fields[0] {
+		switch strings.TrimSuffix(fields[0], ":") {
 		case "props":
 			cur.Props = append(cur.Props, fields[1:]...)
 		case "pure":
@@ -315,6 +330,11 @@ func (sp *Spec) LoadFile(path, prefix string, external bool) error {
 				if a != "nothing" {
 					cur.Assigns = append(cur.Assigns, a)
 				}
+			}
+		case "allocs":
+			cur.HasAssigns = true
+			for _, a := range splitTop(strings.TrimSpace(strings.TrimPrefix(line, "allocs")), ',') {
+				cur.Allocs = append(cur.Allocs, a)
 			}
 		case "havoc_cell":
 			cur.HavocCells = append(cur.HavocCells, fields[1:]...)
@@ -342,7 +362,20 @@ func (sp *Spec) LoadFile(path, prefix string, external bool) error {
 			}
 			c := &Clause{Kind: "invariant", Label: m[2], Props: parseProps(m[3]), Expr: m[4], Loop: n, Line: where}
 			cur.Invariants[n] = append(cur.Invariants[n], c)
-		case "requires", "ensures", "exit_requires":
+		case "at_call":
+			// at_call CALLEE [label] [{props}]: expr   -- asserted in the caller's state at every call to CALLEE
+			rest := strings.TrimSpace(strings.TrimPrefix(line, "at_call"))
+			sp1 := strings.IndexAny(rest, " \t")
+			if sp1 < 0 {
+				return fmt.Errorf("%s: bad at_call", where)
+			}
+			callee := rest[:sp1]
+			m := reClause.FindStringSubmatch("requires " + strings.TrimSpace(rest[sp1:]))
+			if m == nil {
+				return fmt.Errorf("%s: bad at_call clause", where)
+			}
+			cur.AtCalls = append(cur.AtCalls, &Clause{Kind: "at_call", Var: callee, Label: m[2], Props: parseProps(m[3]), Expr: m[4], Line: where})
+		case "requires", "ensures", "exit_requires", "trusted_ensures":
 			m := reClause.FindStringSubmatch(line)
 			if m == nil {
 				return fmt.Errorf("%s: bad clause %q (need 'kind [label] [{props}]: expr')", where, line)
@@ -353,6 +386,8 @@ func (sp *Spec) LoadFile(path, prefix string, external bool) error {
 				cur.Requires = append(cur.Requires, c)
 			case "ensures":
 				cur.Ensures = append(cur.Ensures, c)
+			case "trusted_ensures":
+				cur.TrustedEns = append(cur.TrustedEns, c)
 			case "exit_requires":
 				cur.ExitReq = append(cur.ExitReq, c)
 			}
